@@ -66,8 +66,11 @@ def analyse(obs: Obs, prog):
                             and isinstance(m_.test.comparators[0].slice, ast.Slice) and ast.unparse(m_.test.left.slice) == ast.unparse(m_.test.comparators[0].slice) \
                             and any(isinstance(x, ast.Raise) and "AddressReuse" in ast.unparse(x) for x in ast.walk(m_)):
                         src_ok["loop"] = src_ok["raise"] = True
-            if isinstance(n, ast.Call) and isinstance(n.func, ast.Attribute) and n.func.attr in ("append", "add"):
-                src_ok["mark"] = True
+            if isinstance(n, ast.Call) and isinstance(n.func, ast.Attribute) and n.func.attr in ("append", "add") and len(n.args) == 1 and isinstance(n.args[0], ast.Name):
+                # what is remembered is the NORMALISED path (the variable the prefix test compares), not the raw address
+                norm_names = {t.id for a_ in ast.walk(fn) if isinstance(a_, ast.Assign) and isinstance(a_.value, ast.IfExp) and "tuple" in ast.unparse(a_.value.test) for t in a_.targets if isinstance(t, ast.Name)}
+                if n.args[0].id in norm_names:
+                    src_ok["mark"] = True
         has_min = any(isinstance(n, ast.Call) and ast.unparse(n.func) == "min" and all("len(" in ast.unparse(a_) for a_ in n.args) for n in ast.walk(fn))
         return all(src_ok.values()) and has_min
     visit_helpers = [hn for hn, hf in SH.methods.items() if hn != "record" and _is_visit(hf)]
@@ -264,6 +267,8 @@ def analyse(obs: Obs, prog):
                 conj = x[1][2] if is_t(x[1], "bool") and x[1][1] == "and" else (x[1],)
                 if not any(is_t(y, "cmp") and y[1] == "not in" and y[3] == subs for y in conj):
                     guarded = False
+                if not any(is_t(y, "cmp") and y[1] == "==" and C(1) in (y[2], y[3]) and mentions(y, P("address")) for y in conj):
+                    guarded = False  # the shortcut is for 1-tuples only
     obs.add({"C34"}, "SUBTRACE", "StaticTrace.get_inner_trace/compat-guard", (not rewr) or guarded, construct="address rewritten before the lookup", derived=f"{len(rewr)} rewriting arm(s); guarded by `address not in self.subtraces`: {guarded}",
             expected="the 1-tuple shortcut only when the tuple itself is not a recorded address", where=W(ST, "get_inner_trace"))
 
